@@ -202,7 +202,7 @@ static Req valid_req(Rng &g, Pool &p, bool secret, int maxcost) {
 }
 static Req invalid_req(Rng &g, Pool &p, bool secret) {
   Req r = valid_req(g, p, secret, 3);
-  switch (g.below(14)) {
+  switch (g.below(15)) {
     case 0: r.ph = Bytes::Null(); r.cls = "null-phrase"; r.mustfail = true; break;
     case 1: r.st = Bytes::Null(); r.cls = "null-setting"; r.mustfail = true; break;
     case 2: r.ph = Bytes(mk_phrase(g, (size_t)g.range(512, 700), (int)g.below(2))); r.cls = "long-phrase"; r.mustfail = true; break;
@@ -263,6 +263,21 @@ static Req invalid_req(Rng &g, Pool &p, bool secret) {
       }
       if (!s.empty()) { r.st = Bytes(s); r.cls = "absurd-memory"; }
       break;
+    }
+    case 11: {  // very long settings: a salt or tail far longer than any buffer the methods keep (whether that is
+                // truncated, accepted or refused with ERANGE is the tree's business: the reference decides)
+      static const size_t ln[] = {60, 100, 200, 300, 383, 384, 385, 400, 511, 512, 513, 700, 1023, 1024, 1025, 2000, 4095, 4096, 4097, 9000, 65535, 65536, 70000};
+      size_t n = g.chance(2, 5) ? (size_t)g.range(290, 400) : ln[g.below(sizeof ln / sizeof *ln)];   // (around CRYPT_OUTPUT_SIZE: every length)
+      static const char *hd[][2] = {{"sha512crypt", "$6$"}, {"sha256crypt", "$5$"}, {"sha512crypt", "$6$rounds=1000$"}, {"sha1crypt", "$sha1$5$"}, {"sunmd5", "$md5$"}, {"sunmd5", "$md5,rounds=3$"},
+                                    {"md5crypt", "$1$"}, {"nt", "$3$$"}, {"bsdicrypt", "_1...abcd"}, {"descrypt", "ab"}, {"bigcrypt", "abcdefghijklm"}, {"scrypt", "$7$6/..../...."}, {"yescrypt", "$y$j75$"}, {"gost_yescrypt", "$gy$j75$"}, {"bcrypt", "$2b$04$abcdefghijklmnopqrstuu"}};
+      size_t k = g.below(sizeof hd / sizeof *hd + 2);
+      std::string s;
+      if (k >= sizeof hd / sizeof *hd) s = r.st.b;   // any valid setting or full hash with a long tail
+      else { s = hd[k][1]; r.m = hd[k][0]; }
+      s += b64salt(g, n);
+      if (g.chance(1, 3)) s += "$";
+      if (g.chance(1, 4)) s += b64salt(g, 43);
+      r.st = Bytes(s); r.cls = "long-setting"; break;
     }
     case 7: {  // truncation of a valid setting (may still be valid: the reference decides)
       std::string s = r.st.b; if (!s.empty()) s.resize(g.below(s.size())); r.st = Bytes(s); r.cls = "truncated"; break;
